@@ -49,7 +49,9 @@ Record clp_params := mkCP {
   cp_lock : Z;                     (* LiquidityRemovalLockPeriod *)
   cp_cancel : Z;                   (* LiquidityRemovalCancelPeriod *)
   cp_registry : list (Z * Z);      (* token registry: (denom id, permission bits) in registry order *)
-  cp_whitelist : list Z            (* clp address whitelist (decommission) *)
+  cp_whitelist : list Z;           (* clp address whitelist (decommission) *)
+  cp_rewards_lock : Z;             (* RewardsLockPeriod *)
+  cp_rewards_wallet : bool         (* RewardsDistribute: pay bucket rewards to wallets (else re-invest) *)
 }.
 Definition PERM_CLP : Z := 1.
 Definition PERM_IBCEXPORT : Z := 2.
